@@ -59,3 +59,13 @@ package httpx
 //@   prop C05
 //@   loop 1 iteration-ensures [attribute-split-at-the-first-equals] calls(strings.SplitN) <= 1 && (calls(strings.SplitN) == 1 ==> arg(strings.SplitN, 1) == "=" && arg(strings.SplitN, 2) == 2 && arg(strings.SplitN, 0) == ret(strings.TrimSpace)) && (calls(strings.SplitN) == 1 && len(ret(strings.SplitN)) == 2 ==> has(ret, ret(strings.SplitN)[0]) && ret[ret(strings.SplitN)[0]] == ret(strings.SplitN)[1])
 //@   ensures [split-at-semicolons] calls(strings.Split) == 1 && arg(strings.Split, 0) == headerValue && arg(strings.Split, 1) == ";" && result != nil
+
+// GetRemoteAddr: every guard of the chain (413, 500, 503, the access log) formats the request through this helper
+// BEFORE it writes its status - it must never panic, whatever the client put into X-Forwarded-For (the default
+// bounds obligations apply: no index into a split of the header that may be empty), and it answers with the header
+// as sent, else the connection's address.
+//@ func GetRemoteAddr
+//@   prop C02
+//@   requires r != nil
+//@   nopanic
+//@   ensures [forwarded-for-as-sent-else-the-peer] (len(ret(Get)) > 0 ==> result == ret(Get)) && (len(ret(Get)) == 0 ==> result == r.RemoteAddr)
